@@ -420,6 +420,9 @@ func uciCase(c Case, rec *evid.Rec) error {
 		ses.Send(l)
 	}
 	cmd := "position fen " + c.FEN
+	if c.FEN == gen.StartFEN {
+		cmd = "position startpos"
+	}
 	if len(c.Moves) > 0 {
 		cmd += " moves " + strings.Join(c.Moves, " ")
 	}
@@ -807,7 +810,7 @@ func TestC06(t *testing.T) {
 			rec.Rapid(t, "uci_go", evid.Pick(6000, 60000), func(t *rapid.T) {
 				c := drawRoot(t, rec)
 				c.GoArgs = drawGoArgs(t)
-				if c.Before = gen.EarlierPositions(t, c.FEN, false, c.Moves); len(c.Before) > 0 {
+				if c.Before = gen.EarlierPositions(t, c.FEN, c.FEN == gen.StartFEN, c.Moves); len(c.Before) > 0 {
 					rec.Class("uci_earlier_position_commands")
 				}
 				if rec.WantSample("uci_go") {
